@@ -319,7 +319,7 @@ class Spline1D():
         TODO
         """
         if (hasattr(x, '__len__')):
-            result = np.empty_like(x)
+            result = np.empty_like(x, dtype=self._coeffs.dtype)
             if self._basis.cubic_uniform:
                 cu_eval_spline_1d_vector(x, self._basis.knots,
                                          self._basis.degree, self._coeffs, result, der)
